@@ -164,6 +164,110 @@ async def subscription_case(ctx, prefixes: tuple[str, str]) -> None:
         await transport.disconnect()
 
 
+async def backlog_case(ctx, case: dict) -> None:
+    """Hook level: large unread backlogs, reads pending across disconnect/connect, backlog present at reconnect."""
+    from aiomysensors.exceptions import TransportFailedError
+
+    transport = hooked_transport("in", "out")
+    kind = case["backlog"]
+    expected: list[str] = []
+    got: list = []
+
+    async def read_all(n: int) -> None:
+        for _ in range(n):
+            try:
+                got.append((await asyncio.wait_for(transport.read(), 5)).rstrip("\n"))
+            except TransportFailedError as exc:
+                got.append(exc)
+            except asyncio.TimeoutError:
+                got.append("<read never completed>")
+                return
+
+    if kind == "burst":
+        await transport.connect()
+        for i in range(case["n"]):
+            transport._receive(f"in/1/0/1/0/{i}", f"b{i}")  # noqa: SLF001
+            expected.append(f"1;0;1;0;{i};b{i}")
+        await read_all(len(expected))
+    elif kind == "unread-at-reconnect":
+        await transport.connect()
+        for i in range(3):
+            transport._receive(f"in/1/0/1/0/{i}", f"u{i}")  # noqa: SLF001
+            expected.append(f"1;0;1;0;{i};u{i}")
+        await transport.disconnect()
+        await transport.connect()
+        transport._receive("in/1/0/1/0/9", "after")  # noqa: SLF001
+        expected.append("1;0;1;0;9;after")
+        await read_all(len(expected))
+    elif kind == "read-pending-across-reconnect":
+        await transport.connect()
+        reader = asyncio.ensure_future(read_all(1))
+        await asyncio.sleep(0)
+        await transport.disconnect()
+        await transport.connect()
+        transport._receive("in/1/0/1/0/5", "late")  # noqa: SLF001
+        expected.append("1;0;1;0;5;late")
+        await asyncio.wait_for(reader, 10)
+    elif kind == "read-before-connect":
+        reader = asyncio.ensure_future(read_all(1))
+        await asyncio.sleep(0)
+        await transport.connect()
+        transport._receive("in/1/0/1/0/5", "first")  # noqa: SLF001
+        expected.append("1;0;1;0;5;first")
+        await asyncio.wait_for(reader, 10)
+    ctx.case(("backlog", kind, case.get("n")), sample=case)
+    ctx.clause("backlog-delivered")
+    if got != expected:
+        first_bad = next((i for i, (a, b) in enumerate(zip(got + [None] * len(expected), expected)) if a != b), None)
+        ctx.violation("delivery-order-or-count",
+                      f"{kind}: {len(expected)} broker messages were received, reads returned {len(got)}; first difference at "
+                      f"#{first_bad}: got {got[first_bad] if first_bad is not None and first_bad < len(got) else None!r:.60}, "
+                      f"expected {expected[first_bad] if first_bad is not None else None!r:.60}", case)
+
+
+def client_burst_case(ctx, n: int) -> None:
+    """MQTTClient on the fake client: a backlog of n undelivered broker messages, then n reads (VLoop)."""
+    from aiomysensors.transport.mqtt import MQTTClient
+
+    case = {"kind": "client-burst", "n": n}
+    log: dict = {"got": 0, "bad": None}
+
+    async def scenario() -> None:
+        transport = MQTTClient("broker.invalid", 1883, in_prefix="in", out_prefix="out")
+        await transport.connect()
+        client = FakeClient.instances[-1]
+        for i in range(n):
+            client.deliver(f"in/1/0/1/0/{i}", f"b{i}".encode())
+        for _ in range(5):
+            await asyncio.sleep(0)
+        for i in range(n):
+            log["waiting"] = i
+            line = (await transport.read()).rstrip("\n")
+            if line != f"1;0;1;0;{i};b{i}" and log["bad"] is None:
+                log["bad"] = (i, line)
+            log["got"] += 1
+        try:
+            await transport.disconnect()
+        except BaseException as exc:  # noqa: BLE001
+            log["disconnect"] = f"{type(exc).__name__}: {exc!s:.60}"
+
+    with install() as seam:
+        if not seam:
+            ctx.skip("fake-client", "no aiomqtt client seam")
+            return
+        result, _loop = run_virtual(scenario)
+    ctx.case(("client-burst", n), sample=case)
+    ctx.clause("backlog-delivered")
+    if isinstance(result, LogicalDeadlock):
+        ctx.clause("deadlock-detector-fired")
+        ctx.violation("mqtt-deaf-after-backlog", f"{n} broker messages arrived before any read: read #{log.get('waiting')} can never "
+                                                 f"complete (logical deadlock) - reception ended silently", case)
+    elif log["bad"] is not None:
+        ctx.violation("delivery-order-or-count", f"burst of {n}: read #{log['bad'][0]} returned {log['bad'][1]!r}", case)
+    elif "disconnect" in log:
+        ctx.violation("disconnect-raises", f"after a burst of {n}: disconnect raised {log['disconnect']}", case)
+
+
 async def fifo_case(ctx, script: list) -> None:
     """Hook level: messages and receive errors are read in arrival order, each exactly once."""
     from aiomysensors.exceptions import TransportFailedError
@@ -432,6 +536,10 @@ def run_case(ctx, case: dict) -> None:
         script = [tuple(bytes.fromhex(x["__bytes__"]) if isinstance(x, dict) else x for x in op) if isinstance(op, list) else op
                   for op in case["script"]]
         client_script_case(ctx, script, tuple(case["prefixes"]))
+    elif kind == "client-burst":
+        client_burst_case(ctx, case["n"])
+    elif "backlog" in case:
+        arun(backlog_case(ctx, case))
     elif kind == "client-publish":
         client_publish_case(ctx, tuple(case["prefixes"]), case["lines"])
     elif kind == "minibroker":
@@ -462,6 +570,16 @@ def run(ctx) -> None:
             for script in itertools.product(("msg", "err", "read"), repeat=length):
                 if ctx.mine():
                     arun(fifo_case(ctx, list(script)))
+        for i, case in enumerate([{"kind": "backlog", "backlog": "burst", "n": 10}, {"kind": "backlog", "backlog": "burst", "n": 1500},
+                                  {"kind": "backlog", "backlog": "burst", "n": ctx.pick(5000, 70000)},
+                                  {"kind": "backlog", "backlog": "unread-at-reconnect"},
+                                  {"kind": "backlog", "backlog": "read-pending-across-reconnect"},
+                                  {"kind": "backlog", "backlog": "read-before-connect"}]):
+            if ctx.mine(i):
+                arun(backlog_case(ctx, case))
+        for i, n in enumerate((100, 1500, ctx.pick(3000, 40000))):
+            if ctx.mine(i + 1):
+                client_burst_case(ctx, n)
         # fake client scripts on the VLoop
         alphabet = ["msg", ("bin", b"\xff\xfe"), "err", "read", "yield"]
         count = 0
